@@ -15,9 +15,10 @@ import (
 
 // D* Lite history operations.
 const (
-	opStep   = iota // d.Step()
-	opUpdate        // change the world, d.UpdateWorld(changed edges)
-	opMove          // d.MoveTo(node), change the world, d.UpdateWorld(changed edges)
+	opStep     = iota // d.Step()
+	opUpdate          // change the world, d.UpdateWorld(changed edges)
+	opMove            // d.MoveTo(node), change the world, d.UpdateWorld(changed edges)
+	opMoveOnly        // d.MoveTo(node) and nothing else: Path() must describe the new location
 )
 
 type dsOp struct {
@@ -35,6 +36,7 @@ type dstarCase struct {
 	HMode int // 0: nil heuristic, 1: path.NullHeuristic, 2: factor x distance in the all-time cheapest world
 	HF    int
 	Ops   []dsOp
+	View  int // viewFull or viewWeightOnly: what the world graph handed to NewDStarLite implements
 }
 
 // budgetExceeded is the panic value of the guarded world model.
@@ -72,6 +74,12 @@ type dstarRun struct {
 	// after Step had moved away from it.
 	replanAt int
 	kmLost   bool
+	// stale: a MoveTo was not followed by a non-empty UpdateWorld yet.
+	stale bool
+	// foreign counts heuristic calls that received a node value that is
+	// neither a node of the world graph nor the start/goal given by the caller.
+	foreign     int
+	foreignType string
 }
 
 func (r *dstarRun) key(base string) string { return base }
@@ -186,10 +194,26 @@ func (r *dstarRun) step(stage string) (moved bool, fail *vk.Failure) {
 //     position before moving, so the distance covered by Step calls since the
 //     last UpdateWorld never enters the key modifier; with a non-zero
 //     heuristic the keys left in the queue are then no longer lower bounds.
+//   - NewDStarLite asserts graph.Weighted (Weight and WeightedEdge); a world
+//     graph that implements the one-method path.Weighted only is silently
+//     planned with UniformCost.
+//   - MoveTo does not replan, and UpdateWorld returns early for an empty change
+//     list, so after MoveTo to a node the earlier search never expanded Path()
+//     and Step() report "no path" until some edge changes.
 func checkDStar(c dstarCase) *vk.Failure {
-	f, zero, kmLost := checkDStar1(c)
+	f, r := checkDStar1(c)
+	zero, kmLost := r.zero, r.kmLost
 	if f == nil {
+		if r.foreign > 0 {
+			return vk.Failf("heuristic-gets-internal-node", "the heuristic was called %d times with a node value of type %s instead of the caller's nodes (NewDStarLite and the key computation pass the caller's nodes)", r.foreign, r.foreignType)
+		}
 		return nil
+	}
+	if c.View == viewWeightOnly && dstarUsesHopCounts() {
+		return vk.Failf("weight-only-world/uniform-cost-used", "world graph implementing path.Weighted (Weight) but not graph.Weighted (WeightedEdge): NewDStarLite plans with hop counts: %s: %s", f.Key, f.Msg)
+	}
+	if r.stale && !zero {
+		return vk.Failf("moveto-without-replan", "MoveTo not followed by a non-empty UpdateWorld: %s: %s", f.Key, f.Msg)
 	}
 	if kmLost && c.HMode == 2 && !zero {
 		return vk.Failf("moveto-after-step", "MoveTo after Step without UpdateWorld in between, non-zero heuristic: %s: %s", f.Key, f.Msg)
@@ -199,7 +223,7 @@ func checkDStar(c dstarCase) *vk.Failure {
 	}
 	if c.S == c.T {
 		for _, op := range c.Ops {
-			if op.Kind == opMove {
+			if op.Kind == opMove || op.Kind == opMoveOnly {
 				return vk.Failf("start-at-goal-then-moveto", "NewDStarLite with start == goal followed by MoveTo: %s: %s", f.Key, f.Msg)
 			}
 		}
@@ -207,10 +231,23 @@ func checkDStar(c dstarCase) *vk.Failure {
 	return f
 }
 
-func checkDStar1(c dstarCase) (fail *vk.Failure, zero, kmLost bool) {
+func checkDStar1(c dstarCase) (*vk.Failure, *dstarRun) {
 	r := &dstarRun{c: &c}
-	defer func() { zero, kmLost = r.zero, r.kmLost }()
-	return checkDStar2(r, c), false, false
+	return checkDStar2(r, c), r
+}
+
+// dstarUsesHopCounts probes whether NewDStarLite honours a world graph that
+// implements path.Weighted but not graph.Weighted: on the two-node world
+// 0 -> 1 of weight 5 the plan must weigh 5; with UniformCost it weighs 1.
+func dstarUsesHopCounts() bool {
+	g := simple.NewWeightedDirectedGraph(0, inf)
+	g.SetWeightedEdge(simple.WeightedEdge{F: simple.Node(0), T: simple.Node(1), W: 5})
+	var w float64
+	res := vk.Call(func() {
+		d := dynamic.NewDStarLite(simple.Node(0), simple.Node(1), viewOf(viewWeightOnly, g, false), nil, simple.NewWeightedDirectedGraph(0, inf))
+		_, w = d.Path()
+	})
+	return res.Outcome == vk.Returned && w == 1
 }
 
 func checkDStar2(r *dstarRun, c dstarCase) *vk.Failure {
@@ -287,6 +324,22 @@ func checkDStar2(r *dstarRun, c dstarCase) *vk.Failure {
 		}
 	}
 	vk.Class([]string{"dstar-h=nil", "dstar-h=null", "dstar-h=consistent"}[c.HMode%3])
+	if h != nil {
+		inner := h
+		h = func(x, y graph.Node) float64 {
+			for _, nd := range []graph.Node{x, y} {
+				if _, ok := nd.(simple.Node); !ok {
+					r.foreign++
+					r.foreignType = fmt.Sprintf("%T", nd)
+				}
+			}
+			return inner(x, y)
+		}
+	}
+	if c.View == viewWeightOnly {
+		vk.Class("dstar-" + viewNames[viewWeightOnly])
+		r.g = viewOf(viewWeightOnly, r.g.(weightedGraph), c.Undir)
+	}
 
 	src, dst := simple.Node(c.IDs[c.S]), simple.Node(c.IDs[c.T])
 	ret, f := r.call("new", "NewDStarLite", r.m.hasNeg, func() { r.d = dynamic.NewDStarLite(src, dst, r.g, h, r.world) })
@@ -316,6 +369,24 @@ func checkDStar2(r *dstarRun, c dstarCase) *vk.Failure {
 				return f
 			}
 			if prevP, prevW, f = r.verifyPath(stage + " (after Step)"); f != nil {
+				return f
+			}
+		case opMoveOnly:
+			if op.Node < 0 || op.Node >= n {
+				continue
+			}
+			if r.m.idx[r.d.Here().ID()] != r.replanAt {
+				r.kmLost = true
+			}
+			if _, f := r.call("moveto", "MoveTo "+stage, false, func() { r.d.MoveTo(simple.Node(c.IDs[op.Node])) }); f != nil {
+				return f
+			}
+			if r.d.Here().ID() != c.IDs[op.Node] {
+				return vk.Failf("here", "%s: after MoveTo(%d) Here() = %d", stage, c.IDs[op.Node], r.d.Here().ID())
+			}
+			r.stale = true
+			vk.Class("dstar-op=moveto-only")
+			if prevP, prevW, f = r.verifyPath(stage + " (after MoveTo alone)"); f != nil {
 				return f
 			}
 		case opUpdate, opMove:
@@ -376,6 +447,7 @@ func checkDStar2(r *dstarRun, c dstarCase) *vk.Failure {
 					return vk.Failf("here", "%s: after MoveTo(%d) Here() = %d", stage, c.IDs[op.Node], r.d.Here().ID())
 				}
 				prevP = nil
+				r.stale = true
 				vk.Class("dstar-op=moveto")
 			}
 			if len(valid) == 0 {
@@ -403,6 +475,7 @@ func checkDStar2(r *dstarRun, c dstarCase) *vk.Failure {
 				return nil // state after the documented panic is not specified
 			}
 			r.replanAt = r.m.idx[r.d.Here().ID()]
+			r.stale = false
 			// did the update change the optimum of the previous plan?
 			if prevP != nil {
 				here := r.m.idx[r.d.Here().ID()]
@@ -475,19 +548,25 @@ func drawDStar(t *rapid.T) dstarCase {
 	c.T = r.Intn(n)
 	c.HMode = rapid.SampledFrom([]int{2, 2, 0, 1}).Draw(t, "hmode")
 	c.HF = rapid.IntRange(1, len(hFactors)-1).Draw(t, "hf")
+	if rapid.IntRange(0, 7).Draw(t, "weightonly") == 0 {
+		c.View = viewWeightOnly
+	}
 	nops := rapid.IntRange(0, vk.Pick(24, 40)).Draw(t, "nops")
 	for i := 0; i < nops; i++ {
 		var op dsOp
-		switch k := rapid.IntRange(0, 9).Draw(t, "op"); {
+		switch k := rapid.IntRange(0, 10).Draw(t, "op"); {
 		case k < 5:
 			op.Kind = opStep
 		case k < 9:
 			op.Kind = opUpdate
-		default:
+		case k == 9:
 			op.Kind = opMove
 			op.Node = r.Intn(n)
+		default:
+			op.Kind = opMoveOnly
+			op.Node = r.Intn(n)
 		}
-		if op.Kind != opStep && n >= 2 {
+		if (op.Kind == opUpdate || op.Kind == opMove) && n >= 2 {
 			nch := rapid.IntRange(1, 3).Draw(t, "nch")
 			for j := 0; j < nch; j++ {
 				var a arc
